@@ -190,7 +190,7 @@ pub fn run(ctx: &Ctx) -> Outcome {
 
 pub struct NsResult { cases: u64, invocations: u64, fails: Vec<(String, String, Value)> }
 
-fn repo_binary() -> Result<String, String> {
+pub fn repo_binary() -> Result<String, String> {
   let out = Command::new("cargo").args(["build", "--release", "--offline"]).current_dir("/repo")
     .env("CARGO_TARGET_DIR", "/verif/.target-repo").env("CARGO_NET_OFFLINE", "true").env_remove("RUSTFLAGS").output().map_err(|e| format!("cargo: {}", e))?;
   if !out.status.success() { return Err(format!("building /repo failed: {}", String::from_utf8_lossy(&out.stderr).lines().rev().take(5).collect::<Vec<_>>().join(" | "))); }
